@@ -809,6 +809,8 @@ fn run_corr(args: &Args) -> Report {
         compare(&mut drv, &mut rep, "xn-respelled", &format!("ui {} E a 1 {}", CFG, hexb(&d)));
         compare(&mut drv, &mut rep, "xn-respelled", &format!("ui {} U f 2 {}", CFG, hexb(&d)));
     }
+    // the adapter premises of the Coq theorems (NvNoTrunc, AdapterOK), sampled on the real idna_adapter
+    adapter_facts(&mut rep, &mut rng, thorough, &sources);
     // Known-class predicates: the Rust and the model versions agree
     for _ in 0..(if thorough { 4000 } else { 300 }) {
         let d = random_domain(&mut rng);
@@ -826,6 +828,108 @@ fn run_corr(args: &Args) -> Report {
         }
     }
     rep
+}
+
+// ---------------------------------------------------------------- the adapter premises, sampled
+/// The Coq theorems of C10 - C12 quantify over an abstract adapter and assume a few facts about it
+/// (Proofs/Idna_C10_Inner.v NvNoTrunc, Proofs/Idna_Hyp.v AdapterOK).  They are statements about
+/// idna_adapter alone (never about uts46.rs); every run samples them on the real crate.  A violated fact is
+/// reported as a mismatch of the stream `adapter` (expected "1").
+fn adapter_fact_checks(l: &[char]) -> Vec<(&'static str, bool)> {
+    let ad = idna_adapter::Adapter::new();
+    let nv = |t: &[char]| -> Vec<char> { ad.normalize_validate(t.iter().copied()).collect() };
+    let mn = |t: &[char]| -> Vec<char> { ad.map_normalize(t.iter().copied()).collect() };
+    let mut out: Vec<(&'static str, bool)> = Vec::new();
+    // NvNoTrunc: normalize_validate(l) is never a proper prefix of l
+    let n = nv(l);
+    out.push(("nvnotrunc", !(n.len() < l.len() && l[..n.len()] == n[..])));
+    // AdapterNP (Proofs/C04_Uts46_Inner.v): neither normalizer ever returns U+200F (chars are below 2^32 by type)
+    {
+        let m0 = mn(l);
+        out.push(("adapternp", !n.contains(&'\u{200F}') && !m0.contains(&'\u{200F}')));
+    }
+    // H1 (ok_ascii): on ASCII text map_normalize is ASCII lower-casing
+    if l.iter().all(|c| c.is_ascii()) {
+        let low: Vec<char> = l.iter().map(|c| c.to_ascii_lowercase()).collect();
+        out.push(("ok_ascii", mn(l) == low));
+    }
+    // ok_case: map_normalize does not depend on the case of ASCII letters
+    let m = mn(l);
+    let up: Vec<char> = l.iter().map(|c| c.to_ascii_uppercase()).collect();
+    let lo: Vec<char> = l.iter().map(|c| c.to_ascii_lowercase()).collect();
+    out.push(("ok_case", mn(&up) == m && mn(&lo) == m));
+    // H2 (ok_stable): normalize_validate is the identity on the dot-separated pieces of error-free map_normalize output
+    if !m.contains(&'\u{FFFD}') {
+        out.push(("ok_stable", m.split(|c| *c == '.').all(|piece| nv(piece) == piece)));
+        // ok_mn_idem: map_normalize is the identity on its own error-free output
+        out.push(("ok_mn_idem", mn(&m) == m));
+    }
+    // H3 (ok_fffd): normalize_validate introduces U+FFFD only when it changes the text
+    if !l.contains(&'\u{FFFD}') && n.contains(&'\u{FFFD}') {
+        out.push(("ok_fffd", n != l));
+    }
+    // ok_nv_idem: normalize_validate is the identity on its own error-free output
+    if !n.contains(&'\u{FFFD}') {
+        out.push(("ok_nv_idem", nv(&n) == n));
+    }
+    out
+}
+fn adapter_facts(rep: &mut Report, rng: &mut Rng, thorough: bool, sources: &[String]) {
+    let mut texts: Vec<Vec<char>> = vec![vec![]];
+    // U+200F (RLM) and its neighbours in several contexts (AdapterNP)
+    for c in ['\u{200E}', '\u{200F}', '\u{200C}', '\u{200D}', '\u{61C}'] {
+        texts.push(vec![c]);
+        texts.push(vec!['a', c]);
+        texts.push(vec![c, 'a']);
+        texts.push(vec!['\u{5D0}', c, '\u{5D0}']);
+        texts.push(vec![c, c]);
+    }
+    let add_name = |texts: &mut Vec<Vec<char>>, bytes: &[u8]| {
+        let s = String::from_utf8_lossy(bytes).into_owned();
+        let cs: Vec<char> = s.chars().collect();
+        texts.push(cs.clone());
+        for lab in s.split(|c| c == '.' || c == '\u{3002}' || c == '\u{FF0E}' || c == '\u{FF61}') {
+            texts.push(lab.chars().collect());
+            // the decoded text of a Punycode label is what normalize_validate is applied to
+            if lab.len() >= 4 && lab.is_char_boundary(4) && lab[..4].eq_ignore_ascii_case("xn--") {
+                if let Some(d) = idna::punycode::decode(&lab[4..]) {
+                    texts.push(d);
+                }
+            }
+        }
+    };
+    for _ in 0..(if thorough { 8000 } else { 500 }) {
+        let d = random_domain(rng);
+        add_name(&mut texts, &d);
+    }
+    for s in sources.iter().step_by(if thorough { 1 } else { 7 }) {
+        add_name(&mut texts, s.as_bytes());
+    }
+    // every k-th scalar value alone, after 'a', before a combining acute, after a virama
+    let step = if thorough { 1 } else { 53 };
+    let mut cp = 0u32;
+    while cp < 0x110000 {
+        if let Some(c) = char::from_u32(cp) {
+            texts.push(vec![c]);
+            texts.push(vec!['a', c]);
+            texts.push(vec![c, '\u{301}']);
+            texts.push(vec!['\u{915}', '\u{94D}', c]);
+        }
+        cp += step;
+    }
+    let mut n = 0u64;
+    for t in &texts {
+        for (fact, holds) in adapter_fact_checks(t) {
+            n += 1;
+            let req = format!("adapter {} {}", fact, hexl(t.iter().map(|c| *c as u32)));
+            rep.case("adapter", &req, "1", if holds { "1" } else { "0" }, !t.is_empty(), &format!("adapter|{}", fact));
+        }
+    }
+    rep.notes.push(format!(
+        "adapter premises sampled on the real idna_adapter: {} texts, {} fact instances (nvnotrunc, adapternp, ok_ascii, ok_case, ok_stable, ok_mn_idem, ok_fffd, ok_nv_idem; H0 = the empty text is among them)",
+        texts.len(),
+        n
+    ));
 }
 
 // ---------------------------------------------------------------- Known classes on the implementation
